@@ -230,6 +230,13 @@ package table
 //@   trusted
 
 // (reading and decoding the footer and metaindex blocks is C13 material: left abstract here)
+// (two blocks: verified under C08 - the checksum setting reaches the raw read; a trusted summary for C13 / C16 callers)
+//@ func (*Reader).readBlock
+//@   props C08
+//@   safety off
+//@   assumepre
+//@   at before call (*Reader).readRawBlock#1
+//@     assert [C08:the-checksum-setting-and-the-handle-are-handed-on] arg0 == bh && arg1 == verifyChecksum
 //@ func (*Reader).readBlock
 //@   props C16 C13
 //@   trusted
@@ -268,6 +275,8 @@ package table
 //@ func (*Reader).find
 //@   props C13 C08
 //@   safety off
+//@   at before call (*Reader).getDataIter#*
+//@     assert [C08,C13:a-lookup-reads-its-blocks-with-the-readers-checksum-setting] arg2 == r.verifyChecksum && isnil(arg1)
 // C08: when a step of the data-block iterator fails (Seek / Next answers false), the reason is asked of THAT iterator
 // before the lookup goes on or gives an answer: a block that could not be read or failed its checksum must surface
 // as an error, not as "not in this block".
@@ -293,9 +302,39 @@ package table
 //@     assert [C08,C13:data-block-read-with-the-readers-checksum-setting] arg2 == r.verifyChecksum
 //@   at before call (*Reader).getDataIter#2
 //@     assert [C08,C13:data-block-read-with-the-readers-checksum-setting] arg2 == r.verifyChecksum
+// C13 / C08: whether a data block's checksum is verified is the reader's setting (strict block checksums), decided
+// once when the table is opened; every path from a lookup or an iterator to the read of the block hands that setting
+// - and the handle of the block asked for - on unchanged. A path that drops it returns damaged bytes as data.
 //@ func (*Reader).getDataIter
 //@   props C13 C08
-//@   trusted
+//@   safety off
+//@   assumepre
+//@   at before call (*Reader).readBlockCached#1
+//@     assert [C08,C13:the-checksum-setting-and-the-handle-are-handed-on] arg0 == dataBH && arg1 == verifyChecksum && arg2 == fillCache
+//@ func (*Reader).getDataIterErr
+//@   props C13 C08
+//@   safety off
+//@   assumepre
+//@   at before call (*Reader).getDataIter#1
+//@     assert [C08,C13:the-checksum-setting-and-the-handle-are-handed-on] arg0 == dataBH && arg1 == slice && arg2 == verifyChecksum && arg3 == fillCache
+//@ func (*indexIter).Get
+//@   props C13 C08
+//@   safety off
+//@   assumepre
+//@   at before call (*Reader).getDataIterErr#1
+//@     assert [C08,C13:an-iterator-reads-its-blocks-with-the-readers-checksum-setting] arg2 == i.tr.verifyChecksum && arg3 == i.fillCache && arg0 == dataBH
+//@ func (*Reader).readBlockCached
+//@   props C13 C08
+//@   safety off
+//@   assumepre
+//@   at before call (*Reader).readBlock#1
+//@     assert [C08,C13:the-checksum-setting-and-the-handle-are-handed-on] arg0 == bh && arg1 == verifyChecksum
+//@ func (*Reader).readBlockCached$1
+//@   props C13 C08
+//@   safety off
+//@   assumepre
+//@   at before call (*Reader).readBlock#1
+//@     assert [C08,C13:the-checksum-setting-and-the-handle-are-handed-on] arg0 == bh && arg1 == verifyChecksum
 //@ func (*Reader).getIndexBlock
 //@   props C13 C08
 //@   trusted
@@ -358,7 +397,7 @@ package table
 // behind the last restart point, the answer is the end of the entries, not the word that follows the restart array
 // (the restart count; F17).
 //@ func (*block).seek
-//@   props C13 C02 C18
+//@   props C13 C02 C18 C08
 //@   safety off
 //@   sortedinput the keys at the restart points of a block increase, as the writer emits them (a block that passed its checksum is such a block)
 //@   requires 0 <= rstart && rstart <= rlimit && rlimit <= b.restartsLen && 0 <= b.restartsOffset && b.restartsOffset + 4*b.restartsLen <= len(b.data) && len(b.data) <= 1099511627776
@@ -368,7 +407,7 @@ package table
 // (for restartIndex the recorded offsets are taken to increase with the restart point, as the writer emits them; a
 // block that passed its checksum is such a block)
 //@ func (*block).restartIndex
-//@   props C13 C02 C18
+//@   props C13 C02 C18 C08
 //@   safety off
 //@   requires [restart-offsets-increase] forall i, j int :: (0 <= i && i < j && j < rlimit - rstart) ==> le32(b.data, b.restartsOffset + 4*(rstart+i)) < le32(b.data, b.restartsOffset + 4*(rstart+j))
 //@   requires 0 <= rstart && rstart <= rlimit && rlimit <= b.restartsLen && 0 <= b.restartsOffset && b.restartsOffset + 4*b.restartsLen <= len(b.data) && len(b.data) <= 1099511627776
